@@ -32,21 +32,17 @@ def o2(prog):
                              "msg": "%s casts its operand to %s instead of its own class %s: comparing two %s values fails (compare_stack aborts on fail)" % (f["q"], targ, cls, cls),
                              "detail": None})
             continue
-        # shape: if (auto v = as<X>(&that)) {...no fail...} else return fail;
-        top = None
-        for x in walk(f["body"]):
-            if x.get("k") == "if" and x.get("var") and any(y is mine[0] for y in walk(x["var"].get("init"))):
-                top = x
-        if top is None:
-            raise Broken("%s: the cast result is not tested by an if-with-initialiser (unmodelled shape)" % f["q"])
+        # the cast result is tested against nullptr once (any spelling: if-with-initialiser, early return, named local);
+        # null case (operand of another type): every return answers fail; non-null case: no return answers fail
+        from zw import null_case_region
+        top, null_region, nonnull_region = null_case_region(f, lambda c: c is mine[0], False, "value::as<%s>" % targ)
 
         def is_fail(r):
             e = unwrap(r.get("e"))
             return isinstance(e, dict) and e.get("d") == "enum" and e.get("n") == "fail"
-        then_fail = [r for r in walk(top["then"]) if r.get("k") == "return" and is_fail(r)]
-        else_rets = [r for r in walk(top.get("else"))] if top.get("else") else []
-        else_ok = bool(top.get("else")) and all(is_fail(r) for r in else_rets if r.get("k") == "return") and \
-            any(r.get("k") == "return" for r in else_rets)
+        then_fail = [r for st in nonnull_region for r in walk(st) if r.get("k") == "return" and is_fail(r)]
+        else_rets = [r for st in null_region for r in walk(st) if r.get("k") == "return"]
+        else_ok = bool(else_rets) and all(is_fail(r) for r in else_rets)
         if then_fail:
             findings.append({"key": key, "where": then_fail[0]["l"],
                              "msg": "%s returns cmp_result::fail for an operand of its own type: same-type comparison must be total" % f["q"], "detail": None})
@@ -127,7 +123,7 @@ def o3(prog, tier="quick"):
         "ctor:std::less<*": lambda ev, o, a: (lambda ev2, args: (0 if args[0] is None else args[0].addr) < (0 if args[1] is None else args[1].addr)),
     }
     glob = {"dec_constant_dom": dec}
-    ev = Evaluator(hooks, glob, ptr_lt=True)
+    ev = Evaluator(hooks, glob, ptr_lt=True, prog=prog)
     memo = {}
     nonnull = [d for d in doms if d is not None]
 
@@ -239,7 +235,7 @@ def o3_die(prog):
         "zw_value::cmp": lambda ev, o, a: ev.call(f, o, [a[0]]),
         "value_die::cmp": lambda ev, o, a: ev.call(f, o, [a[0]]),
     }
-    ev = Evaluator(hooks, {}, ptr_lt=True)
+    ev = Evaluator(hooks, {}, ptr_lt=True, prog=prog)
     # universe: one Dwarf, import-chain heads X, Y (cooked, no import of their own), Z imported through X
     X = Die("imp@10", 1, 10, False, None)
     Y = Die("imp@11", 1, 11, False, None)
@@ -314,7 +310,7 @@ def o4(prog, tier="quick"):
         "constant::operator!=": lambda ev, o, a: ev.call(ops["operator!="], o, [a[0]]),
         "constant::operator==": lambda ev, o, a: ev.call(ops["operator=="], o, [a[0]]),
     }
-    ev = Evaluator(hooks, {"dec_constant_dom": dec}, ptr_lt=True)
+    ev = Evaluator(hooks, {"dec_constant_dom": dec}, ptr_lt=True, prog=prog)
     want = {"operator>": lambda a, b, L: L(b, a), "operator<=": lambda a, b, L: not L(b, a), "operator>=": lambda a, b, L: not L(a, b),
             "operator!=": lambda a, b, L: L(a, b) or L(b, a), "operator==": lambda a, b, L: not (L(a, b) or L(b, a))}
     memo = {}
@@ -433,7 +429,7 @@ def o5(prog, tier="quick"):
         "value_type::operator<": lambda ev, o, a: o._code < a[0]._code,
         "(anonymous namespace)::compare_stack": lambda ev, o, a: ev.call(cs, None, a),
     }
-    ev = Evaluator(hooks, {}, ptr_lt=True, prog=None)
+    ev = Evaluator(hooks, {}, ptr_lt=True, prog=prog)
     vals = [V(t, r) for t in (1, 2) for r in (0, 1)]
     stacks = [S(())] + [S((a,)) for a in vals] + [S((a, b)) for a in vals for b in vals]
     if tier == "thorough":
@@ -529,7 +525,7 @@ def o6(prog):
     hooks = {}
     for name, f in ops.items():
         hooks[name] = (lambda ff: (lambda ev, o, a: ev.call(ff, None, a)))(f)
-    ev = Evaluator(hooks, {}, ptr_lt=True)
+    ev = Evaluator(hooks, {}, ptr_lt=True, prog=prog)
     math = {"operator<": lambda x, y: x < y, "operator==": lambda x, y: x == y, "operator<=": lambda x, y: x <= y,
             "operator>": lambda x, y: x > y, "operator>=": lambda x, y: x >= y, "operator!=": lambda x, y: x != y}
     n = 0
